@@ -53,6 +53,7 @@ pub struct NodeReservation<'a>(&'a Node);
 
 impl Drop for NodeReservation<'_> {
     fn drop(&mut self) {
+        verif_step!(WRITER_SUB);
         self.0.active_writers.fetch_sub(1, Release);
     }
 }
@@ -98,6 +99,7 @@ impl Node {
         //
         // Note that the other pointers in the chain never change and are *ordinary* pointers. The
         // whole linked list is synchronized through the head.
+        verif_step!(LIST_HEAD_LOAD);
         let mut current = unsafe { LIST_HEAD.load(SeqCst).as_ref() };
         while let Some(node) = current {
             let result = f(node);
@@ -114,6 +116,7 @@ impl Node {
         // Trick: Make sure we have an up to date value of the active_writers in this thread, so we
         // can properly release it below.
         let _reservation = self.reserve_writer();
+        verif_step!(COOLDOWN_START);
         assert_eq!(NODE_USED, self.in_use.swap(NODE_COOLDOWN, Release));
     }
 
@@ -126,11 +129,14 @@ impl Node {
         // * More importantly, sync the value of active_writers to be at least the value when the
         //   cooldown started. That way we know the 0 we observe happened some time after
         //   start_cooldown.
+        verif_step!(COOLDOWN_CHECK);
         if self.in_use.load(Acquire) == NODE_COOLDOWN {
             // The rest can be nicely relaxed ‒ no memory is being synchronized by these
             // operations. We just see an up to date 0 and allow someone (possibly us) to claim the
             // node later on.
+            verif_step!(COOLDOWN_WRITERS);
             if self.active_writers.load(Relaxed) == 0 {
+                verif_step!(COOLDOWN_CAS);
                 let _ = self
                     .in_use
                     .compare_exchange(NODE_COOLDOWN, NODE_UNUSED, Relaxed, Relaxed);
@@ -140,6 +146,7 @@ impl Node {
 
     /// Mark this node that a writer is currently playing with it.
     pub fn reserve_writer(&self) -> NodeReservation {
+        verif_step!(WRITER_ADD);
         self.active_writers.fetch_add(1, Acquire);
         NodeReservation(self)
     }
@@ -152,6 +159,7 @@ impl Node {
         // Try to find an unused one in the chain and reuse it.
         Self::traverse(|node| {
             node.check_cooldown();
+            verif_step!(NODE_CLAIM);
             if node
                 .in_use
                 // We claim a unique control over the generation and the right to write to slots if
@@ -159,6 +167,7 @@ impl Node {
                 .compare_exchange(NODE_UNUSED, NODE_USED, SeqCst, Relaxed)
                 .is_ok()
             {
+                verif_step!(NODE_REUSED);
                 Some(node)
             } else {
                 None
@@ -166,6 +175,7 @@ impl Node {
         })
         // If that didn't work, create a new one and prepend to the list.
         .unwrap_or_else(|| {
+            verif_step!(NODE_NEW);
             let node = Box::leak(Box::<Node>::default());
             node.helping.init();
             // We don't want to read any data in addition to the head, Relaxed is fine
@@ -176,6 +186,7 @@ impl Node {
             let mut head = LIST_HEAD.load(Relaxed);
             loop {
                 node.next = head;
+                verif_step!(NODE_PUSH);
                 if let Err(old) = LIST_HEAD.compare_exchange_weak(
                     head, node,
                     // We need to release *the whole chain* here. For that, we need to
@@ -237,6 +248,7 @@ impl LocalNode {
             // Note that the situation should be very very rare and not happen often, so the slower
             // performance doesn't matter that much.
             .unwrap_or_else(|_| {
+                verif_step!(WITH_TLS_GONE);
                 let tmp_node = LocalNode {
                     node: Cell::new(Some(Node::get())),
                     fast: FastLocal::default(),
@@ -282,6 +294,7 @@ impl LocalNode {
         if discard {
             // Too many generations happened, make sure the writers give the poor node a break for
             // a while so they don't observe the generation wrapping around.
+            verif_step!(HELPING_WRAP);
             node.start_cooldown();
             self.node.take();
         }
@@ -346,6 +359,53 @@ thread_local! {
 #[thread_local]
 /// A debt node assigned to this thread.
 static THREAD_HEAD: OnceCell<LocalNode> = OnceCell::new();
+
+#[cfg(feature = "verif-hooks")]
+impl Node {
+    pub(crate) fn verif_nodes() -> alloc::vec::Vec<crate::verif::NodeSnapshot> {
+        let mut result = alloc::vec::Vec::new();
+        let mut current = unsafe { LIST_HEAD.load(Acquire).as_ref() };
+        while let Some(node) = current {
+            let mut fast = [0; 8];
+            for (dst, src) in fast.iter_mut().zip(node.fast_slots()) {
+                *dst = src.0.load(Relaxed);
+            }
+            result.push(crate::verif::NodeSnapshot {
+                addr: node as *const Node as usize,
+                in_use: node.in_use.load(Relaxed),
+                active_writers: node.active_writers.load(Relaxed),
+                fast,
+                helping: node.helping_slot().0.load(Relaxed),
+                control: node.helping.verif_control(),
+                active_addr: node.helping.verif_active_addr(),
+            });
+            current = unsafe { node.next.as_ref() };
+        }
+        result
+    }
+}
+
+#[cfg(all(feature = "verif-hooks", not(feature = "experimental-thread-local")))]
+impl LocalNode {
+    pub(crate) fn verif_thread_node() -> Option<usize> {
+        THREAD_HEAD
+            .try_with(|head| head.node.get().map(|n| n as *const Node as usize))
+            .ok()
+            .and_then(|n| n)
+    }
+
+    pub(crate) fn verif_generation() -> Option<usize> {
+        THREAD_HEAD
+            .try_with(|head| head.helping.verif_generation())
+            .ok()
+    }
+
+    pub(crate) fn verif_set_generation(gen: usize) -> bool {
+        THREAD_HEAD
+            .try_with(|head| head.helping.verif_set_generation(gen))
+            .is_ok()
+    }
+}
 
 #[cfg(test)]
 mod tests {
